@@ -327,6 +327,13 @@ def observe(prob, fmt, solver):
     cons = [_mkcon(c, V) for c in prob['cons']]
     ob = {'pre': _probe(V, obj, cons), 'clen': [len(c) for c in cons], 'ctype': [c.type() for c in cons]}
     p = op(obj, cons)
+    if fmt == 'sparse':
+        # the op that is solved was edited on the way (a throw-away equality and inequality on a variable of their own,
+        # added and deleted again): the problem written down is the same, so is everything observed below
+        w = variable(1, 'w')
+        e1, i1 = (w == 1), (w <= 5)
+        p.addconstraint(e1); p.addconstraint(i1)
+        p.delconstraint(e1); p.delconstraint(i1)
     ob['exc'] = None
     # the accuracy fields of the underlying solvers.lp call (public API) are recorded: after status 'unknown' the
     # values are None as documented, and the escape clause of C05 is decided from the solver's own residuals
